@@ -159,6 +159,7 @@ func (j *judge) describe() string {
 }
 
 func (j *judge) instant(T time.Time, G []*opRec) {
+	T = T.In(j.w.tz()) // Schedule.Next is evaluated in the Cron's location
 	tk := T.UnixNano()
 	wk := j.wakes[tk]
 	before := j.describe()
